@@ -105,7 +105,7 @@ M = [
     ('C15', 'get_uid', 'pgpy.pgp', 'return next((u for u in self._uids if search in filter(lambda a: a is not None, (u.name, u.comment, u.email))), None)', 'return next((u for u in self._uids if any(search in a for a in (u.name, u.comment, u.email) if a)), None)'),
     ('C19', '_get_key[', 'pgpy.pgp', "            if alias.replace(' ', '') in m:\n                return self._keys[m[alias.replace(' ', '')]]", "            if alias.replace(' ', '') in m:\n                return self._keys[m[alias]]"),
     ('C19', '_get_keys', 'pgpy.pgp', 'return [self._keys[m[alias]] for m in self._aliases if alias in m]', 'return [self._keys[m[alias]] for m in list(self._aliases)[:1] if alias in m]'),
-    ('C19', 'PGPKeyring.key[sig', 'pgpy.pgp', '        if isinstance(identifier, PGPSignature):\n            identifier = identifier.signer\n\n        yield self._get_key(identifier)', '        if isinstance(identifier, PGPSignature):\n            identifier = identifier.signer_fingerprint\n\n        yield self._get_key(identifier)'),
+    ('C19', 'PGPKeyring.key[sig', 'pgpy.pgp', '        if isinstance(identifier, PGPSignature):\n            identifier = identifier.signer\n\n        yield self._get_key(identifier)', '        if isinstance(identifier, PGPSignature):\n            pass\n\n        yield self._get_key(identifier)'),
     ('C05', 'NotationData', 'pgpy.packet.subpackets.signature', "            self.value = val.decode('latin-1')", "            self.value = val.decode('utf-8')"),
     ('C05', 'ReasonFor', 'pgpy.packet.subpackets.signature', '        self.string = packet[:(self.header.length - 2)]\n        del packet[:(self.header.length - 2)]', '        self.string = packet[:(self.header.length - 1)]\n        del packet[:(self.header.length - 1)]'),
     ('C02', 'subpackets.PreferredHash', 'pgpy.packet.subpackets.signature', '        for i in range(0, self.header.length - 1):\n            self.flags = packet[:1]\n            del packet[:1]\n\n\nclass ByteFlag', '        for i in range(0, self.header.length):\n            self.flags = packet[:1]\n            del packet[:1]\n\n\nclass ByteFlag'),
